@@ -774,6 +774,8 @@ fn flush_pending_deletions(
             .fetch_add(released_sectors, Ordering::Relaxed);
     }
     let has_retries = !retries.is_empty();
+    #[cfg(feoxdb_verif)]
+    crate::verif::sched("ret_requeue");
     if has_retries {
         #[cfg(feoxdb_verif)]
         let _lk_pending = crate::verif::LockSpan::around("retq.pending", 2);
